@@ -6,7 +6,7 @@ CODES = {
     10: "store_error", 11: "model:lock_result", 12: "model:lock_expiry", 13: "model:balance", 14: "model:utxos",
     15: "model:outputs_to_watch", 16: "model:unmined_set", 17: "model:locked_list", 18: "model:tx_details",
     19: "model:unique_tx_details", 20: "model:range_transactions", 21: "model:pair_balance", 22: "model:pair_utxos",
-    23: "model:pair_details", 24: "model:histories_not_equal",
+    23: "model:pair_details", 24: "model:histories_not_equal", 25: "model:lock_expiry_denotes_other_lease",
     113: "balance_differs_from_ledger", 114: "spendable_set_differs_from_ledger", 116: "unconfirmed_set_differs_from_ledger",
     117: "lease_list_differs_from_ledger", 118: "tx_details_differ_from_ledger", 120: "range_iteration_differs_from_ledger",
     121: "pair_balance_differs_from_ledger", 122: "pair_spendable_set_differs_from_ledger", 123: "pair_details_differ_from_ledger",
